@@ -234,7 +234,7 @@ reg(
     "cases = strings passed to anstyle_git::parse and compared with an independent recogniser/denotation (accept <=> accept, same style, "
     "same error variant + word + whole input) and a print/parse round trip; exhaustive 1- and 2-word combinations x case variants x "
     "separators, all '#'+3/6 character words over a 10-character alphabet, all single edits of vocabulary words (distinct by "
-    "construction), seeded sentences, printed expressible styles and arbitrary Unicode (distinct by hash); non-trivial = not blank",
+    "construction), seeded sentences, printed expressible styles and arbitrary Unicode (distinct by hash); non-trivial = not blank; plus near-duplicate spellings of every vocabulary word parsed after each other on one thread in several orders (counter inputs_after_history)",
     ["a sign in front of a number (+5) and letters whose Unicode lower-casing is ASCII (KELVIN SIGN, dotted capital I) are checked for 'no panic' only - DESIGN 8.6",
      "'#rgb' denotes single-digit components (r,g,b), as the crate's tests pin it", "any number of leading zeros is accepted for 0-255"],
     simple("c11"),
